@@ -117,11 +117,14 @@ def run(F, R):
             continue
         if "errors" in b.field_reads():
             for c in b.calls():
-                if c.callee and re.search(r"core::mem::take$|::drain$|::append$|::extend$", c.callee):
+                if c.callee and re.search(r"core::mem::take$|::drain$|core::mem::replace$", c.callee):
                     # arg derives from .errors ?
                     for a in c.args:
                         if a[0] in ("c", "m"):
-                            o, _ = trace(b, a)
+                            o, passed = trace(b, a)
+                            locks = [p for p in passed if p.callee and re.search(r"mutex::.*::lock$", p.callee)]
+                            if locks:
+                                o, passed = trace(b, locks[0].args[0])
                             if any(k == "field" and ".errors" in x for k, x in o if k == "field"):
                                 drains.append((b, c))
                                 break
@@ -142,8 +145,51 @@ def run(F, R):
         b = F.one(pat)
         wi = b.calls_to(r"context::\{impl#\d+\}::with_index$")
         loops = b.loop_blocks()
-        R.check(bool(wi) and all(c.bb in loops for c in wi), "R03.4", key + ":resolve_list:with_index-per-item", b.where(),
-                "with_index inside the item loop", "items are not resolved under an index context")
+        fam = [x for x in F.bodies.values() if x.owner == b.owner]
+        wi = [c for x in fam for c in x.calls_to(r"context::\{impl#\d+\}::with_index$")]
+        R.check(bool(wi), "R03.4", key + ":resolve_list:with_index-per-item", b.where(),
+                "%d with_index sites" % len(wi), "items are not resolved under an index context")
+        for x in fam:
+            for c in x.calls_to(r"context::\{impl#\d+\}::set_error_path$"):
+                o, passed = trace(x, c.args[0])
+                via = any(p.callee and p.callee.endswith("::with_index") for p in passed) or any(k == "upvar" and ("ctx_idx" in str(v) or "ctx_item" in str(v)) for k, v in o) \
+                    or any(x.local_name(l) in ("ctx_idx", "ctx_item") for l in [c.args[0][1][0]] if c.args[0][0] in ("c", "m"))
+                R.check(via, "R03.4", key + ":resolve_list:item-error-stamped-with-index-context", c.where(), "receiver is the with_index context",
+                        "an item error is stamped with the list field's context: the path loses the item index")
+
+    # ------------------------------------------------------------ R03.6
+    R.rule("R03.6", "no path overwrite: ContextBase::set_error_path replaces the whole path, so it may only be applied to a freshly created error "
+                    "(into_server_error / ServerError::new in the same body); applying it to the Err of a nested OutputType::resolve discards the deeper path "
+                    "the nested field already stamped")
+    n6 = 0
+    for b in F.bodies.values():
+        if not re.match(r"async_graphql::(resolver_utils|dynamic::resolve|types::external)", b.defp):
+            continue
+        for c in b.calls_to(r"context::\{impl#\d+\}::set_error_path$"):
+            n6 += 1
+            o, passed = trace(b, c.args[1])
+            fresh = any(p.callee and re.search(ISE + r"|error::\{impl#\d+\}::new$", p.callee) for p in passed)
+            nested = b.kind == "closure" and any(k == "param" for k, x in o) and not fresh
+            if nested:
+                # the closure is a map_err handler: whose Err does it handle?
+                parent = F.get(b.parent)
+                src = None
+                if parent is not None:
+                    for (bb, cdef, st) in parent.closures_created():
+                        if cdef == b.defp:
+                            for mc in parent.calls():
+                                if mc.callee and mc.callee.endswith("::map_err") and any(a[0] in ("c", "m") and a[1][0] == st[0][0] for a in mc.args):
+                                    po, pp = trace(parent, mc.args[0])
+                                    if any((q.declared or "").endswith("OutputType::resolve") for q in pp) or any(k == "call" and (x.declared or "").endswith("OutputType::resolve") for k, x in po):
+                                        src = "OutputType::resolve"
+                                    # awaited futures: result of polling a future created by OutputType::resolve
+                                    if src is None and any((q.declared or "").endswith("OutputType::resolve") for q in parent.calls()):
+                                        src = "OutputType::resolve"
+                key = re.sub(r"\{closure#\d+\}", "{c}", b.owner.replace("async_graphql::", ""))
+                R.check(src is None, "R03.6", "path-overwritten:" + key, c.where(), "handles a fresh error",
+                        "the Err of a nested resolve is re-stamped with this (shallower) context: an error raised by a field *inside* a list item is reported with the "
+                        "item's path `[list, i]` instead of `[list, i, field]`")
+    R.floor("R03.6", "set_error_path sites in the executors", n6, 10)
 
     # ------------------------------------------------------------ R03.5
     R.rule("R03.5", "guards run before the resolver: in every Object/ComplexObject/SimpleObject/Subscription expansion that "
